@@ -104,7 +104,6 @@ NoNestedArrays(v) ==
   CASE v.t = "arr" -> \A i \in 1..Len(v.a) :
                         /\ v.a[i].t # "arr"
                         /\ NoNestedArrays(v.a[i])
-                        /\ (v.a[i].t = "doc" => \A j \in 1..Len(v.a[i].f) : IdxOf(v.a[i].f[j][1]) < 0)
     [] v.t = "doc" -> \A i \in 1..Len(v.f) : NoNestedArrays(v.f[i][2])
     [] OTHER -> TRUE
 
@@ -120,9 +119,25 @@ NonNullScalar(x) == x.t \notin {"null", "missing", "doc", "arr"}
 TraverseOps == {"$eq", "$ne", "$gt", "$gte", "$lt", "$lte", "$in", "$nin", "$mod", "$type",
                 "$bitsAllSet", "$bitsAllClear", "$bitsAnySet", "$bitsAnyClear"}
 
+(* A numeric path component that meets an array is read by MongoDB both as an index and as a field name of the  *)
+(* element documents; lungo reads it as an index when the index exists and as a field name otherwise.  The two   *)
+(* readings are both non-empty -- and the path is outside the core domain -- only when the index exists and some  *)
+(* element document has a field of that name.                                                                    *)
+RECURSIVE AmbiguousIndex(_, _)
+AmbiguousIndex(v, p) ==
+  IF p = <<>> THEN FALSE
+  ELSE IF v.t = "doc" THEN FieldIdx(v.f, Head(p)) # 0 /\ AmbiguousIndex(v.f[FieldIdx(v.f, Head(p))][2], Tail(p))
+  ELSE IF v.t = "arr" THEN
+       LET idx == IdxOf(Head(p)) IN
+       \/ (idx >= 0 /\ idx < Len(v.a) /\ \E i \in 1..Len(v.a) : v.a[i].t = "doc" /\ FieldIdx(v.a[i].f, Head(p)) # 0)
+       \/ (idx >= 0 /\ idx < Len(v.a) /\ AmbiguousIndex(v.a[idx + 1], Tail(p)))
+       \/ \E i \in 1..Len(v.a) : v.a[i].t = "doc" /\ AmbiguousIndex(v.a[i], p)
+  ELSE FALSE
+
 RECURSIVE CoreQuery(_, _), CorePair(_, _, _, _), CoreOp(_, _, _, _)
 CoreOp(doc, op, p, v) ==
-  IF op = "$not" THEN v.t = "doc" /\ \A i \in 1..Len(v.f) : CoreOp(doc, v.f[i][1], p, v.f[i][2])
+  IF AmbiguousIndex(doc, p) THEN FALSE
+  ELSE IF op = "$not" THEN v.t = "doc" /\ \A i \in 1..Len(v.f) : CoreOp(doc, v.f[i][1], p, v.f[i][2])
   ELSE IF op = "$elemMatch" THEN
        /\ ~Traverses(doc, p)
        /\ v.t = "doc"
